@@ -127,6 +127,22 @@ func selectFuncs(eng *Engine, prop string, cfg *PropConfig) (map[*ssa.Function]b
 			}
 		}
 	}
+	// function literals inside a selected function belong to it
+	var addAnon func(fn *ssa.Function)
+	addAnon = func(fn *ssa.Function) {
+		for _, a := range fn.AnonFuncs {
+			if !sel[a] {
+				sel[a] = true
+				if safety[fn] {
+					safety[a] = true
+				}
+			}
+			addAnon(a)
+		}
+	}
+	for fn := range sel {
+		addAnon(fn)
+	}
 	return sel, safety, unresolved
 }
 
@@ -153,7 +169,7 @@ func encodeAll(eng *Engine, prop string, sel, safety map[*ssa.Function]bool, cfg
 			defer func() { <-sem }()
 			e := eng.newFEnc(fn, prop)
 			e.safety = safety[fn]
-			e.checked = e.fc != nil && hasFunctional(e.fc)
+			e.checked = e.fc != nil && hasFunctional(e.fc) && !e.fc.ArithAssumed
 			if cfg != nil {
 				for _, pat := range cfg.Checked {
 					if matchPat(pat, shortFn(fn)) {
@@ -232,6 +248,7 @@ func cmdCheck(mode string, argv []string) int {
 	encSecs := time.Since(t0).Seconds() - loadSecs
 
 	var obls []*Obligation
+	allHits := map[*Clause]int{}
 	var encErrors, undecidedClauses, notes []string
 	funcsUnder := []string{}
 	abstracted := map[string][]string{}
@@ -255,17 +272,24 @@ func cmdCheck(mode string, argv []string) int {
 		for k := range r.enc.calleesUsed {
 			calleeContracts[k] = true
 		}
-		// at-call clauses that matched no call site cannot generate their obligation
-		if r.enc.fc != nil {
-			for _, c := range r.enc.fc.Clauses {
-				if c.Kind == "atcall" && !c.Optional && c.hasProp(*prop) && r.enc.atCallHits[c] == 0 {
-					undecidedClauses = append(undecidedClauses, fmt.Sprintf("%s: at-call %s matched no call site", name, c.Pat))
-				}
-			}
+		for c, n := range r.enc.atCallHits {
+			allHits[c] += n
 		}
 		for _, o := range r.enc.obls {
 			if hasProp(o.Props, *prop) {
 				obls = append(obls, o)
+			}
+		}
+	}
+	// at-call clauses that matched no call site (in the function or the function literals inside it)
+	// cannot generate their obligation
+	for _, r := range results {
+		if r.err != "" || r.enc.fc == nil || r.fn.Parent() != nil && eng.contractOf(r.fn.Parent()) == r.enc.fc {
+			continue
+		}
+		for _, c := range r.enc.fc.Clauses {
+			if c.Kind == "atcall" && !c.Optional && c.hasProp(*prop) && allHits[c] == 0 {
+				undecidedClauses = append(undecidedClauses, fmt.Sprintf("%s: at-call %s [%s] matched no call site", shortFn(r.fn), c.Pat, c.Label))
 			}
 		}
 	}
